@@ -173,7 +173,7 @@ class StatementMarking(_STIXBase21):
 
     def __init__(self, statement=None, **kwargs):
         # Allow statement as positional args.
-        if statement and not kwargs.get('statement'):
+        if statement is not None and kwargs.get('statement') is None:
             kwargs['statement'] = statement
 
         super(StatementMarking, self).__init__(**kwargs)
